@@ -61,7 +61,20 @@ def dispatch(repo: Repo, chk: Check) -> None:
         "matched accelerator's name; already dispatched ops are skipped",
         floor=2,
     )
-    sel = [s for s in fl.stmts(ast.Assign) if s.reachable and s.loops and isinstance(s.node.targets[0], ast.Name) and s.node.targets[0].id == "matched_accelerator"]
+    # the selected accelerator is the variable whose `.name` becomes the library call (found by dataflow, not by name)
+    lib0 = [s for s in fl.stmts(ast.Assign) if s.reachable and isinstance(s.node.targets[0], ast.Attribute) and s.node.targets[0].attr == "library_call"]
+    chosen = set()
+    for s in lib0:
+        for n in ast.walk(s.node.value):
+            m = norm.match(T("$m.name"), n)
+            if m is not None and isinstance(m["m"], ast.Name):
+                chosen.add(m["m"].id)
+        for n in ast.walk(fl.cone(s.node.value, s, inline=0)):
+            m = norm.match(T("$m.name"), n)
+            if m is not None and isinstance(norm.primary(m["m"]), ast.Name):
+                chosen.add(norm.primary(m["m"]).id)
+    sel = [s for s in fl.stmts(ast.Assign, ast.AnnAssign) if s.reachable and s.loops and isinstance((s.node.targets[0] if isinstance(s.node, ast.Assign) else s.node.target), ast.Name)
+           and (s.node.targets[0] if isinstance(s.node, ast.Assign) else s.node.target).id in chosen and not (isinstance(s.node.value, ast.Constant) and s.node.value.value is None)]
     if not sel:
         raise AnalysisError(f"{f.where}: selection of the accelerator not found")
     for s in sel:
